@@ -498,6 +498,24 @@ impl FromMeta<'_> for u32 {
     }
 }
 
+impl FromMeta<'_> for u16 {
+    /// Accepts anything that fits in 16 bits as a signed or unsigned number, like the 32-bit impls.
+    fn from_meta(meta: &Sp<Meta>) -> Result<Self, FromMetaError<'_>> {
+        let value = i32::from_meta(meta)?;
+        u16::try_from(value).or_else(|_| i16::try_from(value).map(|x| x as u16))
+            .map_err(|_| FromMetaError::expected("an integer that fits in 16 bits", meta))
+    }
+}
+
+impl FromMeta<'_> for u8 {
+    /// Accepts anything that fits in 8 bits as a signed or unsigned number, like the 32-bit impls.
+    fn from_meta(meta: &Sp<Meta>) -> Result<Self, FromMetaError<'_>> {
+        let value = i32::from_meta(meta)?;
+        u8::try_from(value).or_else(|_| i8::try_from(value).map(|x| x as u8))
+            .map_err(|_| FromMetaError::expected("an integer that fits in 8 bits", meta))
+    }
+}
+
 impl FromMeta<'_> for f32 {
     fn from_meta(meta: &Sp<Meta>) -> Result<Self, FromMetaError<'_>> {
         match ScalarValue::from_meta(meta)? {
